@@ -58,7 +58,7 @@ def gen_case(rng):
     d = kgen.gen_dataset(rng, opts)
     inj = []
     kinds = ['ghost_record', 'wrong_kind_record', 'ghost_traj', 'ghost_rig_member', 'rig_collision', 'orphan_feature',
-             'missing_feature', 'othercase_feature', 'linked_subdir', 'ghost_obs_type', 'ghost_obs_image', 'ghost_obs_other_type', 'ghost_match']
+             'missing_feature', 'othercase_feature', 'linked_subdir', 'all_records_dangling', 'ghost_obs_type', 'ghost_obs_image', 'ghost_obs_other_type', 'ghost_match']
     for k in kinds:
         if (k == 'ghost_obs_other_type' and cross) or (k != 'ghost_obs_other_type' and rng.random() < 0.25):
             inj.append([k, rng.randrange(10 ** 6)])
@@ -115,6 +115,20 @@ def inject(case, root):
                 p = os.path.join(root, 'reconstruction', 'keypoints', ty, rng.choice(ims) + '.kpt')
                 if os.path.exists(p):
                     os.remove(p)
+        elif kind == 'all_records_dangling':
+            # every line of records_camera.txt names an undeclared sensor: no image is known any more, while feature and match
+            # files are still there
+            rc = os.path.join(root, 'sensors', 'records_camera.txt')
+            if os.path.exists(rc):
+                lines = open(rc).read().split('\n')
+                out_lines = []
+                for l in lines:
+                    if l.strip() and not l.startswith('#'):
+                        f = [x.strip() for x in l.split(',')]
+                        f[1] = 'ghost_camera'
+                        l = ', '.join(f)
+                    out_lines.append(l)
+                open(rc, 'w').write('\n'.join(out_lines))
         elif kind == 'othercase_feature' and d['keypoints']:
             # the data file of a listed image is missing, a file spelled with another case of the extension stands there
             ty = rng.choice(list(d['keypoints']))
@@ -416,7 +430,7 @@ def oracle(case):
                 return {'signature': 'dangling-observation', 'detail': f'({idx},{kt},{img},{fid})'}
     # completeness: the original valid dataset is still there (injections only add dangling things or remove feature files)
     O = r['orig']
-    removed_feature = any(k in ('missing_feature', 'othercase_feature') for k, _ in case['inject'])
+    removed_feature = any(k in ('missing_feature', 'othercase_feature', 'all_records_dangling') for k, _ in case['inject'])
     for k in ('sensors',):
         if O[k] != L[k]:
             return {'signature': 'lost:sensors', 'detail': f'{O[k]} -> {L[k]}'}
@@ -426,6 +440,8 @@ def oracle(case):
     for part, rows in O['records'].items():
         if part == 'records_gnss' and not any(t == 'gnss' for t in stype.values()):
             continue
+        if part == 'records_camera' and any(k == 'all_records_dangling' for k, _ in case['inject']):
+            continue       # that injection rewrote the valid rows themselves
         got = L['records'].get(part, [])
         if not all(x in got for x in rows):
             return {'signature': 'lost:' + part, 'detail': f'{[x for x in rows if x not in got][:3]}'}
